@@ -273,7 +273,7 @@ def render(g, guise, rng):
     elif guise == "tags":
         o["tag"] = 0.6
     elif guise == "weights":
-        o["wstyle"], o["wforce"] = rng.randint(1, 4), True
+        o["wstyle"], o["wforce"] = rng.randint(1, 6), True
     elif guise == "quoted":
         o["quote"] = True
     elif guise == "dense":
@@ -283,11 +283,13 @@ def render(g, guise, rng):
         o["spell"] = rng.choice(RULESPELL)
     elif guise == "odd":
         o["spell"] = rng.choice(RULESPELL)
-        o["comment"], o["tag"], o["group"], o["wstyle"] = 0.15, 0.2, 0.15, rng.randint(0, 4)
+        o["comment"], o["tag"], o["group"], o["wstyle"] = 0.15, 0.2, 0.15, rng.randint(0, 6)
     alias = {}
 
     def wtext(w):
-        return "/%s/" % [str(w), "%d.0" % w, "%d.00" % w, "%de-1" % (w * 10), "0%d.000" % w][o["wstyle"]]
+        # styles 5 and 6 scale every weight of the grammar by 1/10 resp. 1/100: the proportions - all that JSGF
+        # weights mean - are the same, but a choice point's weights now total LESS than one
+        return "/%s/" % [str(w), "%d.0" % w, "%d.00" % w, "%de-1" % (w * 10), "0%d.000" % w, "0.%d" % w, "%de-2" % w][o["wstyle"]]
 
     def tok(w, quoted):
         if quoted or o["quote"] or " " in w:
